@@ -19,6 +19,9 @@ type c15Class struct {
 	HasVar  bool
 	// positions of field names: file line/col recorded at generation
 	FieldPos map[string][2]int
+	// FieldFile: file of a field declared in a second part of the class (same ---@class name in another file)
+	FieldFile map[string]string
+	Split     bool
 }
 
 type c15Var struct {
@@ -48,8 +51,18 @@ func c15Gen(r *Rng) c15WS {
 	cyc := r.Chance(1, 4)
 	fileText := map[string]*strings.Builder{}
 	fileLine := map[string]int{}
+	// one class may be declared in two parts (part1.lua / part2.lua). Both parts live in files of their own: a file that
+	// declares a class itself resolves the name locally first (by design), so the union of the parts is only defined for
+	// files that declare neither part.
+	splitIdx := -1
+	if r.Chance(1, 3) {
+		splitIdx = r.Intn(n)
+	}
 	for i, nm := range names {
 		c := &c15Class{Name: nm, FieldPos: map[string][2]int{}, File: fmt.Sprintf("types%d.lua", i%nfiles)}
+		if i == splitIdx {
+			c.File = "part1.lua"
+		}
 		// parents: earlier classes (acyclic, diamonds possible); with cyc also later ones / itself
 		np := r.Intn(4)
 		if i == 0 {
@@ -112,6 +125,24 @@ func c15Gen(r *Rng) c15WS {
 			}
 		}
 		emit("")
+	}
+	// a class declared in two parts: the same ---@class name appears again in another file with further fields
+	if splitIdx >= 0 {
+		c := w.Classes[names[splitIdx]]
+		pf := "part2.lua"
+		sb := &strings.Builder{}
+		fileText[pf] = sb
+		sb.WriteString("-- second part\n---@class " + c.Name + "\n")
+		c.FieldFile = map[string]string{}
+		for k := 0; k < r.Range(1, 2); k++ {
+			f := fmt.Sprintf("%s_p2f%d", strings.ToLower(c.Name), k)
+			line := fmt.Sprintf("---@field %s %s", f, r.Pick([]string{"number", "string", "boolean"}))
+			c.Fields = append(c.Fields, f)
+			c.FieldPos[f] = [2]int{2 + k, strings.Index(line, f)}
+			c.FieldFile[f] = pf
+			sb.WriteString(line + "\n")
+		}
+		c.Split = true
 	}
 	// aliases
 	al := &strings.Builder{}
@@ -315,7 +346,11 @@ func runC15(c *Ctx) {
 			fields, _ := w.members(u.v.Class)
 			decl := w.Classes[fields[u.field]]
 			fp := decl.FieldPos[u.field]
-			want := Location{URI: ws.URI(decl.File), Range: Range{Position{fp[0], fp[1]}, Position{fp[0], fp[1] + len(u.field)}}}
+			declFile := decl.File
+			if pf, ok := decl.FieldFile[u.field]; ok {
+				declFile = pf
+			}
+			want := Location{URI: ws.URI(declFile), Range: Range{Position{fp[0], fp[1]}, Position{fp[0], fp[1] + len(u.field)}}}
 			c.Distinct(fmt.Sprint(files, u.line))
 			inherited := "own"
 			if fields[u.field] != u.v.Class {
@@ -327,7 +362,7 @@ func runC15(c *Ctx) {
 			}
 			if len(locs) != 1 || locs[0] != want {
 				c.Report(fmt.Sprintf("member-definition|%s|%s%s", u.v.Via, inherited, cyc),
-					fmt.Sprintf("definition of %s%s.%s (type %s, field declared in %s) should be %s@%v, got %s", u.v.Name, u.v.Access, u.field, u.v.TypeStr, fields[u.field], decl.File, want.Range, fmtLocs(ws, locs)),
+					fmt.Sprintf("definition of %s%s.%s (type %s, field declared in %s) should be %s@%v, got %s", u.v.Name, u.v.Access, u.field, u.v.TypeStr, fields[u.field], declFile, want.Range, fmtLocs(ws, locs)),
 					witness(map[string]interface{}{"var": u.v, "field": u.field}))
 			}
 		}
@@ -404,7 +439,7 @@ func runC15(c *Ctx) {
 			c.Sample(map[string]interface{}{"files": files})
 		}
 	})
-	c.Finish("generated class hierarchies (2-10 classes, up to 3 parents each, diamonds, every 4th graph with cycles and cyclic aliases, classes split over 1-3 files, class table "+
+	c.Finish("generated class hierarchies (2-10 classes, up to 3 parents each, diamonds, every 4th graph with cycles and cyclic aliases, classes spread over 1-3 files, every third graph with one class declared in two parts in two files, class table "+
 		"variables with methods / assigned members) and variables typed by ---@type through a class, an alias, an alias of an alias, T[], table<K,V>, an alias of an array, an alias of a table<K,V> and an alias of that alias; "+
 		"flow (i): go-to-definition on v.member for every expected field must lead to its ---@field name; flow (ii): the document is edited to end in `v.` and completion with "+
 		"trigger '.' must return exactly the transitive field set plus the documented assigned members (superset for cyclic graphs; cyclic aliases only have to return). "+
